@@ -11,9 +11,9 @@ import (
 )
 
 type c07mon struct {
-	stats *sim.Stats
-	level map[int]string // browser → "half" (uid established only by a remember cookie) | "full"
-	oauthRm map[int]bool // browser → did its most recent OAuth2 start ask to be remembered
+	stats   *sim.Stats
+	level   map[int]string // browser → "half" (uid established only by a remember cookie) | "full"
+	oauthRm map[int]bool   // browser → did its most recent OAuth2 start ask to be remembered
 }
 
 func pidClass(pid string) string {
